@@ -30,7 +30,8 @@ RULE = ('every configuration (network, g pattern, g spread, feed, feed scale, T,
         'trace species (x < 1e-4), amount at the lower bound, start outside the bounds, forced-zero '
         'species, rank-deficient element matrix, permuted order, re-used object, closed form, network entered '
         'through a thermdat file written by the harness, another network built / written / solved earlier in '
-        'the process, integer-typed numbers, result edited by the caller between two calls')
+        'the process, integer-typed numbers, result edited by the caller between two calls, '
+        'model handed over as a list in another order than the network / longer than the network / as a dictionary')
 ASSUMPTIONS = ['ideal-gas mixture, standard state 1 bar (NASA polynomials), P given in atm',
                'networks, g patterns, spreads, feeds, scales, T and P are taken from finite alphabets '
                '(stated in bounds); constant-Cp NASA-7 species whose a6 is chosen so that G/RT at the '
@@ -156,7 +157,10 @@ PLANNED_TAGS = ['via:thermdat-written', 'file:layout-exact', 'file:layout-shuffl
                 'feed:forced-zero', 'species:trace', 'species:at-lower-bound', 'start:outside-bounds',
                 'closed-form:dimer', 'closed-form:isomer', 'order:permuted', 'history:reused',
                 'elements:1', 'elements:2', 'elements:3', 'elements:4', 'affinity:checked',
-                'network:bundled-thermdat', 'ref:float64', 'ref:decimal']
+                'network:bundled-thermdat', 'ref:float64', 'ref:decimal',
+                'model:list-in-another-order', 'model:list-rotated', 'model:list-longer-than-network', 'model:dict',
+                'model:dict-in-another-order', 'model:dict-longer-than-network',
+                'network:in-another-order-than-the-listed-model']
 
 
 def _nets(tier):
@@ -188,7 +192,10 @@ def bounds(tier):
                 generic_blocks='per (network, spread, feed) of the regular family: integer-typed amounts, T, P at '
                                '(1000 K, 1 atm) and (500 K, 100 atm) for integral feeds; another object of the same '
                                'species with other numbers built and solved before / after construction; second '
-                               'call after the caller reversed result.species and overwrote moles / mole_frac',
+                               'call after the caller reversed result.species and overwrote moles / mole_frac; model '
+                               'argument as %s relative to the network order (listed network), and as %s with the '
+                               'network reversed (= model in the listed order), at (1000 K, 1 atm)'
+                               % (MODEL_FORMS, MODEL_FORMS_NETWORK_REVERSED),
                 deviation_level='full product inside each block')
 
 
@@ -384,9 +391,56 @@ def _write_file(case, prob, order, path):
     write_thermdat(recs, filename=path)
 
 
+# How the `model` argument is handed over, RELATIVE to the order of the network dictionary (default:
+# a list in the network's order).  +decoys: two objects that are not part of the network (G/RT = -100:
+# would dominate if picked up), one first and one in the middle of the reversed list, so the list /
+# dictionary is longer than the network.
+MODEL_FORMS = ['list:reversed', 'list:rotated', 'list+decoys', 'dict', 'dict:reversed', 'dict+decoys']
+MODEL_FORMS_NETWORK_REVERSED = ['list:reversed', 'dict:reversed']      # = model in the listed order
+MODEL_SIG = {'list:reversed': 'list-in-another-order', 'list:rotated': 'list-in-another-order',
+             'list+decoys': 'list-longer-than-network', 'dict': 'dict', 'dict:reversed': 'dict-in-another-order',
+             'dict+decoys': 'dict-longer-than-network'}
+
+
+def _model_arg(case, prob, order):
+    """The `model` argument of a directly built case."""
+    from pmutt.empirical.nasa import Nasa
+    names = prob['names']
+    form = case.get('model') or 'list'
+    if form != 'list' and form not in MODEL_FORMS:
+        raise core.HarnessError('model form %r' % form)
+    kind, _, how = form.partition(':')
+    decoys = kind.endswith('+decoys')
+    kind = kind.split('+')[0]
+    seq = list(order)
+    if how == 'reversed' or decoys:
+        seq = seq[::-1]
+    elif how == 'rotated':
+        seq = seq[1:] + seq[:1]
+    objs = [_nasa(prob, names[i]) for i in seq]
+    if decoys:
+        extra = []
+        for k, d in enumerate([d for d in FILE_DECOYS if d not in names][:2]):
+            lo, hi = _coeffs(d, 7 + k, -100.0, float(case['T']))
+            extra.append(Nasa(name=d, T_low=200.0, T_mid=1000.0, T_high=3500.0, a_low=list(lo), a_high=list(hi),
+                              elements=dict(FORM[d])))
+        objs.insert(len(objs) // 2, extra[1])
+        objs.insert(0, extra[0])
+    if kind == 'dict':
+        return {o.name: o for o in objs}
+    return objs
+
+
+def _model_snapshot(model):
+    if model is None:
+        return None
+    items = list(model.items()) if isinstance(model, dict) else list(enumerate(model))
+    return [type(model).__name__] + [(k, id(m), dict(m.elements)) for k, m in items]
+
+
 def _make_eq(case, prob, order, workdir):
     """The real Equilibrium object of a case: (object, the network dict it was given, the model
-    list it was given or None)."""
+    list / dict it was given or None)."""
     E = _install_seam()
     names = prob['names']
     network = {}
@@ -403,7 +457,7 @@ def _make_eq(case, prob, order, workdir):
         path = os.path.join(workdir, FILE_NAME)
         _write_file(case, prob, order, path)
         return E.Equilibrium.from_thermdat(path, network), network, None
-    model = [_nasa(prob, names[i]) for i in order]
+    model = _model_arg(case, prob, order)
     return E.Equilibrium(model=model, network=network), network, model
 
 
@@ -460,8 +514,7 @@ def _execute(case, prob, order, prior):
             if when == 'before-build':
                 _run_before(case, workdir)
             eq, network, model = _make_eq(case, prob, order, workdir)
-            given = (list(network.items()), None if model is None else [id(m) for m in model],
-                     None if model is None else [dict(m.elements) for m in model])
+            given = (list(network.items()), _model_snapshot(model))
             if when == 'after-build':
                 _run_before(case, workdir)
             elif when != 'before-build':
@@ -487,10 +540,7 @@ def _execute(case, prob, order, prior):
                     out['unrelated'] += 1
                 else:
                     out['signals'].append('%s: %s' % (w.category.__name__, msg[:100]))
-            out['caller_data_ok'] = (
-                list(network.items()) == given[0]
-                and (model is None or ([id(m) for m in model] == given[1]
-                                       and [dict(m.elements) for m in model] == given[2])))
+            out['caller_data_ok'] = (list(network.items()) == given[0] and _model_snapshot(model) == given[1])
     finally:
         if workdir is not None:
             shutil.rmtree(workdir, ignore_errors=True)
@@ -535,6 +585,8 @@ def _sig(case, prob, run):
         sig['via'] = 'thermdat-written'
     if case.get('num') == 'int':
         sig['numbers'] = 'int'
+    if case.get('model'):
+        sig['model'] = MODEL_SIG[case['model']]
     return sig
 
 
@@ -596,6 +648,13 @@ def _judge(case, ctx, prob, ref, run, sig):
     if case.get('num') == 'int':
         ctx.tag('numbers:int')
         nontriv.append('int')
+    if case.get('model'):
+        ctx.tag('model:' + MODEL_SIG[case['model']])
+        if case['model'] == 'list:rotated':
+            ctx.tag('model:list-rotated')
+        if sig['order'] == 'permuted':
+            ctx.tag('network:in-another-order-than-the-listed-model')
+        nontriv.append('model')
     for step in case.get('before') or []:
         isf = step.get('via') == 'file'
         ctx.tag('history:other-%s-%s' % ('file' if isf else 'object', (case.get('when') or 'before-build')))
@@ -715,6 +774,8 @@ def _key(case):
                     b.get('layout')) for b in case.get('before') or []))
     if any(extra[:-1]) or extra[-1]:
         k += extra
+    if case.get('model'):
+        k += ('model', case['model'])
     return k
 
 
@@ -746,12 +807,12 @@ def check_case(case, ctx):
         return
     sig = _sig(case, prob, run)
     moles = _judge(case, ctx, prob, ref, run, sig)
-    plain = not (_is_file(case) or case.get('before') or case.get('num'))
+    plain = not (_is_file(case) or case.get('before') or case.get('num') or case.get('model'))
     if order != ident or prior is not None or not plain:
         # compare with the listed order on a fresh object built directly from the Nasa objects
         # (same thermodynamic numbers, feed, T, P; float-typed; nothing else done before)
         bcase = dict(case, order=ident, prior=None, via=None, layout=None, num=None, scribble=False,
-                     when=None, path=None, before=None)
+                     when=None, path=None, before=None, model=None)
         bkey = _key(bcase) + (('printed-coefficients',) if _is_file(case) else ())
         if bkey not in _BASE_CACHE:
             try:
@@ -789,6 +850,11 @@ def check_case(case, ctx):
                 ctx.evals()
                 ctx.close('composition does not depend on other networks built or solved earlier in the process',
                           moles[big], base[big], sig, case, rtol=2 * TOL_AMOUNT, atol=0.0)
+            if case.get('model'):
+                ctx.evals()
+                ctx.close('composition does not depend on how the model is handed over (list in any order, list or '
+                          'dictionary longer than the network, dictionary in any order)', moles[big], base[big],
+                          sig, case, rtol=2 * TOL_AMOUNT, atol=0.0)
             if case.get('num'):
                 ctx.evals()
                 ctx.close('integer-typed amounts, T and P give the composition of the float-typed ones',
@@ -912,6 +978,15 @@ def _generic_cases(fb, net, pat, spread, feed, feeds):
     yield dict(fb, scale=1.0, T=DEF_T, P=DEF_P, before=[other], when='before-build')
     # the caller edits the result of the first call in place, then calls again
     yield dict(fb, scale=1.0, T=500.0, P=DEF_P, prior=[DEF_T, 100.0], scribble=True)
+    # the model handed over as a list in another order than the network (reversed, rotated), as a list
+    # longer than the network, as a dictionary (same order, reversed, longer); the network dictionary in
+    # another order than the model
+    for form in MODEL_FORMS:
+        if form == 'list:rotated' and len(ident) == 2:
+            continue                                 # = reversed
+        yield dict(fb, scale=1.0, T=DEF_T, P=DEF_P, model=form)
+    for form in MODEL_FORMS_NETWORK_REVERSED:
+        yield dict(fb, scale=1.0, T=DEF_T, P=DEF_P, order=ident[::-1], model=form)
 
 
 def _cases(shard):
